@@ -29,7 +29,11 @@ func c17Gen(rt *rapid.T) e4Case {
 		switch {
 		case r.Kind <= 2:
 			nh++
-			c.Steps = append(c.Steps, e4Step{Kind: "handle", Extra: nh})
+			hn := nh
+			if r.Extra == 1000 {
+				hn = 100 + nh // one-shot handler that replaces itself (by handler 200+nh) inside its callback
+			}
+			c.Steps = append(c.Steps, e4Step{Kind: "handle", Extra: hn})
 		case r.Kind <= 4:
 			if connected {
 				c.Steps = append(c.Steps, e4Step{Kind: "cutNow"})
@@ -43,7 +47,7 @@ func c17Gen(rt *rapid.T) e4Case {
 			}
 		case r.Kind <= 7:
 			if connected {
-				c.Steps = append(c.Steps, e4Step{Kind: "settle"}, e4Step{Kind: "inject", QoS: r.QoS})
+				c.Steps = append(c.Steps, e4Step{Kind: "settle"}, e4Step{Kind: "inject", QoS: r.QoS, Retain: r.Extra == 200})
 			}
 		case r.Kind == 8:
 			idx++
@@ -56,7 +60,7 @@ func c17Gen(rt *rapid.T) e4Case {
 		c.Steps = append(c.Steps, e4Step{Kind: "connect"})
 	}
 	c.Inject = rapid.SliceOfN(rapid.Custom(func(rt *rapid.T) e4Inject {
-		return e4Inject{Conn: rapid.IntRange(1, 6).Draw(rt, "conn"), QoS: rapid.IntRange(0, 2).Draw(rt, "qos")}
+		return e4Inject{Conn: rapid.IntRange(1, 6).Draw(rt, "conn"), QoS: rapid.IntRange(0, 2).Draw(rt, "qos"), Dup: rapid.IntRange(0, 2).Draw(rt, "dup") == 0}
 	}), 0, 8).Draw(rt, "inject")
 	c.Faults = e4GenFaults(rt, e4GenOpts{MaxFaults: 2, FaultKinds: []string{"cut", "dialErr"}, MaxConn: 3})
 	return c
@@ -71,6 +75,9 @@ func c17HandlerNo(note string) int {
 // c17Oracle: every injected message on a connection whose marker was acknowledged is received
 // by the handler in force (or one being registered concurrently), and by nobody else.
 func c17Oracle(r *e4Result) (msg string, judged int, laterConn int) {
+	if r.ReaderStuck != "" {
+		return r.ReaderStuck, 0, 0
+	}
 	type hcall struct {
 		n          int
 		start, end int64
@@ -83,9 +90,15 @@ func c17Oracle(r *e4Result) (msg string, judged int, laterConn int) {
 			calls = append(calls, hcall{n: c17HandlerNo(e.Note), start: e.Seq, end: 1 << 62})
 			cur = &calls[len(calls)-1]
 		case "HANDLE":
-			if cur != nil {
-				cur.end = e.Seq
+			// close the matching call (calls from the runner and from inside a handler may interleave)
+			n := c17HandlerNo(e.Note)
+			for i := len(calls) - 1; i >= 0; i-- {
+				if calls[i].n == n && calls[i].end == 1<<62 {
+					calls[i].end = e.Seq
+					break
+				}
 			}
+			_ = cur
 		}
 	}
 	// markers acknowledged: conn -> list of (marker B seq, ack W seq)
